@@ -38,6 +38,11 @@ def entries(repo):
 
 def check(ctx):
     repo = ctx.repo
+    from . import generic
+    generic.memo_projection(ctx, ("dataiter.vector", "dataiter.util", "dataiter.data_frame"),
+                            "the rendering shows the dtype label of every column",
+                            only=lambda f: f.module.name != "dataiter.vector" or any(
+                                t in f.name for t in ("label", "string", "repr", "str", "print", "format")))
     I = interp(repo)
     ctx.rule("FWD-override", "keywords passed at a dispatched self.m(...) call are accepted by every override; overrides forward their options")
     ctx.rule("EFF-render", "no write effect on the rendered object in the rendering call graph")
